@@ -28,10 +28,12 @@ CLAIMED = {
              "symbolically on exact-size, misaligned buffers and compared with a reference that carries at bit 128 "
              "instead of at 64-bit limbs, for ALL limb contents and shift amounts at 2 and 3 limbs (thorough: 1..4) and "
              "every width whose top bit lies in the top limb; CBMC's pointer checks decide the no-over-read clauses. "
-             "(b) For ~380 comb-only designs (every operator x widths 1..128 x signedness, shift amounts reaching and "
+             "(b) For ~540 comb-only designs (random comb programs, DESIGN 6.12; every operator x widths 1..128 x signedness, shift amounts reaching and "
              "exceeding the width, mixed widths, ternaries, concatenations) the Cranelift IR the REAL JIT front end "
              "emits is given a bit-vector semantics and z3 decides, for ALL input values, that the stored outputs "
-             "equal the RTL terms; a model is replayed on the real JIT engine against the real interpreter. "
+             "equal the RTL terms; a model is replayed on the real JIT engine against the real interpreter; IR the encoder "
+             "cannot type is replayed for an engine crash. Two recorded findings are re-run natively on every run "
+             "(KNOWN-FINDING lines). "
              "(c) Interpreter evaluation at <=64 bits is the C17 kernel (same function).",
         note="Outside the claim: what Cranelift does below its IR (instruction selection, register allocation), the "
              "AOT-C back end, sequential/hierarchical designs and designs using the wide_* helper calls in the CLIF "
@@ -90,7 +92,7 @@ CLAIMED = {
              "NpnTransform::apply are the defining variable substitutions for ALL truth tables, AigPattern::tt is "
              "the function of the pattern's DAG, and transform_pattern(p,t).tt() == t.apply(p.tt()) for EVERY "
              "pattern with 0..3 AND nodes and every one of the 768 transforms. (b) With the synthesizer built with "
-             "--features aig, for ~470 corpus modules the real aigify -> rewrite -> aig_to_cells_techmap (and the "
+             "--features aig, for ~630 corpus modules the real aigify -> rewrite -> aig_to_cells_techmap (and the "
              "plain round trip) are run and z3 decides that every sink of the rewritten AIG and every output / "
              "flip-flop D / RAM pin of the re-mapped netlist computes the same Boolean function, for all inputs and "
              "states; a model is re-evaluated natively on the dumped objects.",
@@ -105,9 +107,10 @@ CLAIMED = {
                   "environment (fresh process per set) is given a bit-vector semantics and compared by z3 with one "
                   "toggle-independent word-level RTL term, for all inputs; models are replayed on the real simulator "
                   "(JIT and interpreter) with and without the toggles",
-        text="For ~250 comb-only single-module designs (shapes written for each pass: single-reader `let` chains, dead and "
+        text="For ~440 comb-only single-module designs (random comb programs, see DESIGN 6.12, plus shapes written for each pass: single-reader `let` chains, dead and "
              "duplicate definitions, base-write + guarded overrides, >= 8-arm selector chains (LUT mode), bit-wise "
-             "transposition/assembly, case decoding, element-wise array lanes; plus the operator corpus) the real "
+             "transposition/assembly, case decoding, wide selectors, element-wise array lanes, chain inputs rewritten inside a "
+             "version-split span; plus the operator corpus) the real "
              "build_ir pipeline is run under: the default, each of the ten toggles named in the property switched off, "
              "all ten off, and seeded random subsets (quick 4, thorough 32, plus the 7 per-stage levers). For every "
              "design x toggle set z3 decides that every output port the emitted IR stores equals the same RTL term for "
@@ -130,13 +133,16 @@ CLAIMED = {
              "(one-step induction => input sequences of any length; bounded unrolling from reset otherwise), and (2) "
              "that every cell library x RAM-inference threshold x restructure setting yields an equivalent netlist. A "
              "model is replayed on the repository's interpreter and the freshly synthesized netlist before it is "
-             "reported. The quantifier over programs is the corpus (about 220 files, ~190 modules conclusive), not all "
+             "reported. The quantifier over programs is the corpus (about 480 files incl. 48 random comb programs, ~700 "
+             "modules conclusive, module instances inlined), not all "
              "designs.",
-        note="Outside the claim: designs outside the RTL-term subset (module instances, functions, struct/array "
-             "literals, several clocks, block-local temporaries, >4096 state bits) are only covered by the "
+        note="Outside the claim: designs outside the RTL-term subset (functions, struct/array literals, instances in "
+             "generate blocks or with element-wise array connections, several clocks, block-local temporaries in "
+             "always_ff, >4096 state bits) are only covered by the "
              "configuration miter; 4-state behaviour; division by zero and out-of-range dynamic indices are assumed "
              "away. Trusted: the CellKind truth table and FF/RAM step semantics in tv/miter.py, the RTL term builder "
-             "tv/tvdump/src/rtl.rs (validated on the unchanged tree by agreeing with the netlists of ~190 modules and "
+             "tv/tvdump/src/rtl.rs (validated on the unchanged tree by agreeing with the netlists of ~700 modules, with "
+             "the Cranelift IR of ~540 designs, and "
              "by native replay), z3.",
         design_ref="DESIGN.md 2 (C19)"),
 }
